@@ -249,7 +249,11 @@ func verifConstruct(cb *CodeBuilder, pkg *Package, tag string, budget int) {
 func VerifH_C16_constructs() {
 	pkg := verifNewPkg()
 	cb := pkg.NewFunc(nil, "f", nil, nil, false).BodyStart(pkg)
-	// arbitrary valid pre-state: enclosing blocks, pending statements, flow flags
+	// arbitrary valid pre-state: an enclosing closure, enclosing blocks, pending statements, flow flags
+	preclosure := vp.Choose("preclosure", 2) == 1
+	if preclosure {
+		cb.NewClosure(nil, nil, false).BodyStart(pkg)
+	}
 	depth := 2 * vp.Choose("depth", 2)
 	for i := 0; i < depth; i++ {
 		cb.Block()
@@ -274,6 +278,9 @@ func VerifH_C16_constructs() {
 	// closing the enclosing blocks and the function must succeed and leave a clean builder
 	for i := 0; i < depth; i++ {
 		cb.End()
+	}
+	if preclosure {
+		cb.End().Call(0).EndStmt()
 	}
 	cb.End()
 	vp.Assert("C16.final.stack", cb.stk.Len() == 0)
